@@ -243,6 +243,8 @@ impl<'env> Executor<'env> {
         );
         let mut auto_escape_stack = vec![];
         let mut next_loop_recursion_jump = None;
+        #[cfg(feature = "verif_hooks")]
+        let verif_activation = crate::__verif::next_activation();
         let mut loaded_filters = [None; MAX_LOCALS];
         let mut loaded_tests = [None; MAX_LOCALS];
 
@@ -364,6 +366,16 @@ impl<'env> Executor<'env> {
 
             #[cfg(feature = "verif_hooks")]
             crate::__verif::on_instruction(instr);
+            #[cfg(feature = "verif_hooks")]
+            crate::__verif::on_shape(
+                state.instructions,
+                verif_activation,
+                pc,
+                stack.verif_len(),
+                state.ctx.verif_frame_count(),
+                out.verif_capture_depth(),
+                auto_escape_stack.len(),
+            );
 
             // if the fuel consumption feature is enabled, track the fuel
             // consumption here.
